@@ -108,6 +108,8 @@ class Tools:
             futs = {k: ex.submit(self._build, k, v[0], v[1]) for k, v in var.items()}
             for k, fu in futs.items():
                 self.exe[k] = fu.result()
+        if self.exe.get('portable'):
+            ctx.builds.append('cx_c18.cpp[portable: 128-bit #if forced to #if 0]')
         self.spec = vf.oracle_build('c18')
         try:
             self.model = vf.oracle_build('c18m')
@@ -808,6 +810,31 @@ def area_section(ctx, tools, n):
 
 
 # ----------------------------------------------------------------------------- run
+PROOF_FILES = ['proofs/Core_int.v', 'proofs/Core_float.v', 'proofs/Core_isect.v', 'proofs/Core_isect_acc.v', 'proofs/Core_area.v',
+               'proofs/Pip_walk.v', 'proofs/Pip_loop.v']
+
+
+def stage(ctx, name):
+    """section marker; a run against a scratch copy keeps its private build directory (vf.ALT) fresh, because
+    vf.alt_sync of a concurrent run removes the least recently modified ones"""
+    ctx.log(name)
+    alt = getattr(vf, 'ALT', None)
+    if alt and os.path.isdir(alt):
+        try:
+            os.utime(alt, None)
+        except OSError:
+            pass
+
+
+def supporting_qed():
+    n = 0
+    for f in PROOF_FILES:
+        fp = os.path.join(vf.COQ, f)
+        if os.path.exists(fp):
+            n += len(re.findall(r'\b(Qed|Defined)\s*\.', re.sub(r'\(\*.*?\*\)', '', vf.read(fp), flags=re.S)))
+    return n
+
+
 def run(ctx):
     ctx.assumptions += [
         'int64 arithmetic of the translated functions is unbounded Z with explicit range hypotheses (differences of coordinates must be int64 '
@@ -835,26 +862,33 @@ def run(ctx):
         'non-trivial = integer tuples with a full 128-bit product or a positive answer, query points on or inside the polygon, segments that cross, '
         'polygons of non-zero area; distinct by input')
     pr = vf.coq_props(ctx, PID)
+    pr['supporting'] = supporting_qed()
     broken = not pr['ok']
     if broken:
         ctx.log('proof build FAILED: %s' % '; '.join(pr['failed'])[:600])
+    stage(ctx, 'building harness and oracles')
     tools = Tools(ctx)
     boost = 1 if (ctx.quick and not broken and not tools.tie and not getattr(ctx, 'regen_failures', None)) else (4 if ctx.quick else 12)
     # (1) translated targets: native vs extracted Gallina
+    stage(ctx, 'translated targets: native vs extracted Gallina')
     n_tr, tr_bad, tr_err = translator_tie(ctx, 20000 if ctx.quick else 200000)
     ctx.count('evaluations', n_tr)
     ctx.count('translated_evaluations', n_tr)
     # (3a) integer predicates against exact arithmetic
+    stage(ctx, 'integer predicates vs exact arithmetic (both branches)')
     f_int, nt_int = int_predicates(ctx, tools, 30000 * boost)
     # (2)/(3b) PointInPolygon
     lattices = [(5, 0), (5, 1), (5, 2), (7, 3), (5, 4), (3, 5)] if boost == 1 else [(5, 0), (5, 1), (5, 2), (9, 3), (6, 4), (4, 5), (3, 6)]
     if boost == 4:
         lattices = [(5, 0), (5, 1), (5, 2), (8, 3), (5, 4), (3, 5), (3, 6)]
+    stage(ctx, 'PointInPolygon: lattices %s + random' % lattices)
     f_pip, (mis_pip, rep_pip) = pip_section(ctx, tools, lattices, 60000 * boost)
     # (3c) GetSegmentIntersectPt
+    stage(ctx, 'GetSegmentIntersectPt vs exact crossing')
     f_is = isect_section(ctx, tools, 1500 * boost)
     f_w = witness_replay(ctx, tools)
     # (2)/(3d) Area
+    stage(ctx, 'Area vs exact shoelace')
     f_ar, (mis_ar, rep_ar) = area_section(ctx, tools, 6000 * boost)
     found = bool(ctx.violations) or bool(ctx.known_hits)
     # ---- decide: correspondence / tie / proof breaks
